@@ -84,7 +84,7 @@ def rand_config(rng, max_size=40, kind_hint=None):
     for _ in range(200):
         mods = rng.choice(MOD_CHOICES)
         if kind_hint is not None and kind_hint % 6 == 2:
-            mods = rng.choice([(3,), (1, 3), (3, 2)])  # profile 2: a Z_3 charge and a conjugate partner
+            mods = rng.choice([(1, 3), (3, 2), (1, 2)])  # profile 2: a Z_3 charge and a conjugate partner
         if kind_hint is not None and kind_hint % 6 == 1 and not mods:
             mods = (1,)
         if kind_hint is not None and kind_hint % 6 == 4:
@@ -180,7 +180,13 @@ def rand_config(rng, max_size=40, kind_hint=None):
         j = rng.randrange(r1)
         legs3 = [conj_leg(legs1[j])]
         labels3 = [(labels1[j] + ['*']) if labels1[j] else []]
-        if rng.random() < 0.5:
+        if kind_hint is not None and kind_hint % 6 == 2:
+            # a length-1 leg with a non-zero charge in every component (squeeze / take_slice must treat the charges
+            # component-wise)
+            legs3.append(dict(sizes=[1], charges=[[rng.choice([1, -1]) if m == 1 else rng.randrange(1, m) for m in mods]],
+                              qconj=rng.choice([1, -1])))
+            labels3.append(['f'])
+        elif rng.random() < 0.5:
             legs3.append(rand_leg(rng, mods, max_blocks=2, max_size=1))
             labels3.append(['f'])
         t3 = rand_tensor(rng, mods, legs3, labels3, rng.random() < 0.3)
@@ -189,7 +195,12 @@ def rand_config(rng, max_size=40, kind_hint=None):
             # the partner is T1 with two legs already combined into a pipe (so split_legs is enabled at once)
             g = rng.sample(range(r1), 2)
             t2 = dict(combine_of=0, group=[x + 1 for x in g], qconj=rng.choice([1, -1]))
-        return dict(mods=list(mods), tensors=[t1, t2, t3])
+        tensors = [t1, t2, t3]
+        if kind_hint is not None and kind_hint % 6 == 1:
+            # a shallow copy of T1 from the start (T1 has unoccupied charge blocks here): re-indexing in-place methods on one
+            # of the two must leave the other intact
+            tensors.append(dict(shallow_of=0))
+        return dict(mods=list(mods), tensors=tensors)
     raise RuntimeError('no config')
 
 
@@ -210,6 +221,10 @@ def mc_module(name, cfg):
             lines.append('T%d == OpCombine(T%d, %s, %d, TRUE, TRUE)' % (ti + 1, t['combine_of'] + 1, tlc.tla_lit(t['group']), t['qconj']))
             tnames.append('T%d' % (ti + 1))
             continue
+        if 'shallow_of' in t:
+            lines.append('T%d == T%d' % (ti + 1, t['shallow_of'] + 1))
+            tnames.append('T%d' % (ti + 1))
+            continue
         lnames = []
         for li, leg in enumerate(t['legs']):
             ln = 'L%d_%d' % (ti + 1, li + 1)
@@ -227,13 +242,15 @@ def mc_module(name, cfg):
         lines.append('T%d == %s' % (ti + 1, expr))
         tnames.append('T%d' % (ti + 1))
     lines.append('MCInit == <<%s>>' % ', '.join(tnames))
+    lines.append('MCShared == {%s}' % ', '.join('{%d, %d}' % (ti + 1, t['shallow_of'] + 1)
+                                               for ti, t in enumerate(cfg['tensors']) if 'shallow_of' in t))
     lines.append('====')
     return '\n'.join(lines) + '\n'
 
 
 def mc_cfg(max_ops, nslots=4, max_rank=4, max_size=100, max_abs=20000, invariants=True):
     return dict(spec='Spec',
-                constants=dict(Mods='<-MCMods', InitTensors='<-MCInit', NSlots=nslots, MaxOps=max_ops, MaxRank=max_rank,
+                constants=dict(Mods='<-MCMods', InitTensors='<-MCInit', InitShared='<-MCShared', NSlots=nslots, MaxOps=max_ops, MaxRank=max_rank,
                                MaxSize=max_size, MaxAbs=max_abs),
                 invariants=['PoolChargeRule', 'PoolWellFormed'] if invariants else [],
                 properties=['OnlyOutChanges'] if invariants else [], view='AbsView')
@@ -646,12 +663,13 @@ def _run_one(args):
     name = 'NpcMC'
     d = tlc.scratch('npc%d' % idx)
     out = dict(idx=idx, cfg=cfg, behaviours=[], mc=None, sim=None, error=None)
+    shared0 = [[ti + 1, t['shallow_of'] + 1] for ti, t in enumerate(cfg['tensors']) if 'shallow_of' in t]
     try:
         spec = os.path.join(d, name + '.tla')
         with open(spec, 'w') as f:
             f.write(mc_module(name, cfg))
         if mc_ops:
-            cfgp = tlc.write_cfg(os.path.join(d, 'mc.cfg'), **mc_cfg(mc_ops))
+            cfgp = tlc.write_cfg(os.path.join(d, 'mc.cfg'), **mc_cfg(mc_ops, nslots=len(cfg['tensors']) + 1))
             dump = os.path.join(d, 'states')
             res = tlc.run(spec, cfgp, workers=workers, timeout=timeout, dump=dump, coverage=False)
             if tlc.machinery_failed(res):
@@ -669,9 +687,9 @@ def _run_one(args):
                 else:
                     hs.append(st['hist'])
             for h in hs:
-                out['behaviours'].append(dict(mods=cfg['mods'], init=init, steps=h, origin='mc%d' % idx))
+                out['behaviours'].append(dict(mods=cfg['mods'], init=init, steps=h, origin='mc%d' % idx, shared0=shared0))
         if sim_num:
-            cfgp = tlc.write_cfg(os.path.join(d, 'sim.cfg'), **mc_cfg(sim_ops))
+            cfgp = tlc.write_cfg(os.path.join(d, 'sim.cfg'), **mc_cfg(sim_ops, nslots=len(cfg['tensors']) + 1))
             os.makedirs(os.path.join(d, 'tr'))
             prefix = os.path.join(d, 'tr', 't')
             res = tlc.run(spec, cfgp, workers=workers, timeout=timeout, simulate=dict(num=sim_num, file=prefix),
@@ -687,7 +705,7 @@ def _run_one(args):
                 init = tr[0][1]['pool']
                 last = tr[-1][1]
                 if last['hist']:
-                    out['behaviours'].append(dict(mods=cfg['mods'], init=init, steps=last['hist'], origin='sim%d' % idx))
+                    out['behaviours'].append(dict(mods=cfg['mods'], init=init, steps=last['hist'], origin='sim%d' % idx, shared0=shared0))
         return out
     finally:
         shutil.rmtree(d, ignore_errors=True)
